@@ -1,11 +1,19 @@
 package json
 
 import (
+	"context"
 	"fmt"
+	"math"
+	"strconv"
+	"time"
 
 	"github.com/valyala/fastjson"
 
+	"github.com/cube2222/octosql/config"
+	"github.com/cube2222/octosql/execution"
+	"github.com/cube2222/octosql/execution/files"
 	"github.com/cube2222/octosql/octosql"
+	"github.com/cube2222/octosql/physical"
 	"github.com/cube2222/octosql/zzverif"
 )
 
@@ -124,15 +132,400 @@ func verifParse(j verifJ) *fastjson.Value {
 	return v
 }
 
+// ---------- reference predicates (over the reported type and the harness's own tree) ----------
+
+var verifMissing = verifJ{kind: -1}
+
+func (j verifJ) get(key string) verifJ {
+	for i, k := range j.keys {
+		if k == key {
+			return j.elems[i]
+		}
+	}
+	return verifMissing
+}
+
+func (j verifJ) nullish() bool { return j.kind == vjNull || j.kind == -1 }
+
+// verifRepr: JSON value y can be represented in type t ("the inferred schema"): null / a missing
+// key need a nullable type, numbers need Float, booleans Boolean, strings String (or Time when the
+// text is an RFC 3339 time), arrays a list whose element type represents every element, objects a
+// struct type that represents every one of ITS fields (keys the type does not know are ignored,
+// like unknown top-level columns).
+func verifRepr(t octosql.Type, y verifJ) bool {
+	switch t.TypeID {
+	case octosql.TypeIDAny:
+		return true
+	case octosql.TypeIDNull:
+		return y.nullish()
+	case octosql.TypeIDFloat:
+		return y.kind == vjNumber
+	case octosql.TypeIDBoolean:
+		return y.kind == vjTrue || y.kind == vjFalse
+	case octosql.TypeIDString:
+		return y.kind == vjString || y.kind == vjTime
+	case octosql.TypeIDTime:
+		return y.kind == vjTime
+	case octosql.TypeIDList:
+		if y.kind != vjArray {
+			return false
+		}
+		for _, e := range y.elems {
+			if t.List.Element == nil || !verifRepr(*t.List.Element, e) {
+				return false
+			}
+		}
+		return true
+	case octosql.TypeIDStruct:
+		if y.kind != vjObject {
+			return false
+		}
+		for _, f := range t.Struct.Fields {
+			if !verifRepr(f.Type, y.get(f.Name)) {
+				return false
+			}
+		}
+		return true
+	case octosql.TypeIDUnion:
+		for _, alt := range t.Union.Alternatives {
+			if verifRepr(alt, y) {
+				return true
+			}
+		}
+	}
+	return false
+}
+
+// verifNilElem: region of C24-json-empty-list-type-panic — y has a non-empty array at a position
+// whose inferred type is a list WITHOUT element type (every array seen there by the inference was
+// empty): getOctoSQLValue dereferences the nil element type.
+func verifNilElem(t octosql.Type, y verifJ) bool {
+	switch t.TypeID {
+	case octosql.TypeIDList:
+		if y.kind != vjArray {
+			return false
+		}
+		if t.List.Element == nil {
+			return len(y.elems) > 0
+		}
+		for _, e := range y.elems {
+			if verifNilElem(*t.List.Element, e) {
+				return true
+			}
+		}
+	case octosql.TypeIDStruct:
+		if y.kind != vjObject {
+			return false
+		}
+		for _, f := range t.Struct.Fields {
+			if verifNilElem(f.Type, y.get(f.Name)) {
+				return true
+			}
+		}
+	case octosql.TypeIDUnion:
+		for _, alt := range t.Union.Alternatives {
+			if verifNilElem(alt, y) {
+				return true
+			}
+		}
+	}
+	return false
+}
+
+// verifHasNullish: y (read at type t) contains a null or lacks a field of t, at any depth.
+func verifHasNullish(t octosql.Type, y verifJ) bool {
+	if y.nullish() {
+		return true
+	}
+	switch t.TypeID {
+	case octosql.TypeIDList:
+		if y.kind == vjArray && t.List.Element != nil {
+			for _, e := range y.elems {
+				if verifHasNullish(*t.List.Element, e) {
+					return true
+				}
+			}
+		}
+	case octosql.TypeIDStruct:
+		if y.kind == vjObject {
+			for _, f := range t.Struct.Fields {
+				if verifHasNullish(f.Type, y.get(f.Name)) {
+					return true
+				}
+			}
+		}
+	case octosql.TypeIDUnion:
+		for _, alt := range t.Union.Alternatives {
+			if verifHasNullish(alt, y) {
+				return true
+			}
+		}
+	}
+	return false
+}
+
+// verifNullInUnionContainer: region of C24-json-null-not-ok — getOctoSQLValue reports ok=false
+// for every JSON null and for every missing key of a nullable field (the value NULL it returns is
+// right). A Union type only accepts an alternative that reports ok=true, so an array / object that
+// contains such a null, at a position typed as a union with a list / struct alternative, is
+// rejected by every alternative and becomes NULL as a whole.
+func verifNullInUnionContainer(t octosql.Type, y verifJ) bool {
+	switch t.TypeID {
+	case octosql.TypeIDList:
+		if y.kind == vjArray && t.List.Element != nil {
+			for _, e := range y.elems {
+				if verifNullInUnionContainer(*t.List.Element, e) {
+					return true
+				}
+			}
+		}
+	case octosql.TypeIDStruct:
+		if y.kind == vjObject {
+			for _, f := range t.Struct.Fields {
+				if verifNullInUnionContainer(f.Type, y.get(f.Name)) {
+					return true
+				}
+			}
+		}
+	case octosql.TypeIDUnion:
+		for _, alt := range t.Union.Alternatives {
+			if (alt.TypeID == octosql.TypeIDList && y.kind == vjArray) || (alt.TypeID == octosql.TypeIDStruct && y.kind == vjObject) {
+				if verifHasNullish(alt, y) || verifNullInUnionContainer(alt, y) {
+					return true
+				}
+			}
+		}
+	}
+	return false
+}
+
 // VerifC24JSONSelf: a value X that is part of the preview. t = getOctoSQLType(X) (arrays make the
-// real code TypeSum the element types, objects make it deep-merge): getOctoSQLValue(t, X) must
-// succeed and its value must match t.
+// real code TypeSum the element types, objects in arrays make it deep-merge): the value that
+// getOctoSQLValue(t, X) returns (the worker ignores `ok`) must match t.
 func VerifC24JSONSelf() {
 	x := verifGenJ("x", zzverif.Param("D"), zzverif.Param("E"), zzverif.Param("S"))
 	xv := verifParse(x)
 	t := getOctoSQLType(xv)
 	zzverif.Reach("typed")
+	zzverif.Assert(verifRepr(t, x), "reference: a previewed value is representable in its own type")
+	zzverif.Known("C24-json-null-not-ok", verifNullInUnionContainer(t, x))
 	val, ok := getOctoSQLValue(t, xv)
-	zzverif.Assert(ok, "preview-value-is-representable")
 	zzverif.Assert(octosql.VerifMatches(val, t), "value-matches-inferred-type")
+	zzverif.Assert(ok || verifHasNullish(t, x), "ok-unless-null-inside")
+}
+
+// VerifC24JSONPair: X is what the preview saw, Y is a value of a later row, t = getOctoSQLType(X).
+// getOctoSQLValue(t, Y) flags exactly the values that t cannot represent (ok=false — what the
+// worker does with the flag is checked by VerifC24JSONFile) and an accepted value matches t.
+func VerifC24JSONPair() {
+	d, e, sl := zzverif.Param("D"), zzverif.Param("E"), zzverif.Param("S")
+	x := verifGenJ("x", d, e, sl)
+	y := verifGenJ("y", d, e, sl)
+	t := getOctoSQLType(verifParse(x))
+	yv := verifParse(y)
+	zzverif.Reach("typed")
+	zzverif.Known("C24-json-empty-list-type-panic", verifNilElem(t, y))
+	val, ok := getOctoSQLValue(t, yv)
+	zzverif.Assert(verifRepr(t, y) || !ok, "unrepresentable-is-flagged")
+	zzverif.Assert(!ok || octosql.VerifMatches(val, t), "accepted-value-matches-type")
+	// ok=false for every null / missing nullable field, although NULL is representable
+	zzverif.Known("C24-json-null-not-ok", verifHasNullish(t, y))
+	zzverif.Assert(ok || !verifRepr(t, y), "representable-is-accepted")
+}
+
+// ---------- file level: the REAL Creator and the REAL DatasourceExecuting.Run (line reader
+// goroutine, global parser worker pool, reorder queue), file piped on stdin ----------
+
+type verifSink struct{ rows [][]octosql.Value }
+
+func (s *verifSink) produce(ctx execution.ProduceContext, rec execution.Record) error {
+	s.rows = append(s.rows, append([]octosql.Value(nil), rec.Values...))
+	return nil
+}
+
+func verifMeta(ctx execution.ProduceContext, msg execution.MetadataMessage) error { return nil }
+
+// verifConfigCtx is context.Background() plus the configuration (context.WithValue is not
+// interpretable; config.FromContext only calls Value).
+type verifConfigCtx struct {
+	context.Context
+	cfg *config.Config
+}
+
+func (c verifConfigCtx) Value(key any) any { return c.cfg }
+
+func verifCtx() context.Context {
+	cfg := &config.Config{}
+	cfg.Files.BufferSizeBytes = 4096
+	cfg.Files.JSON.MaxLineSizeBytes = 4096
+	return verifConfigCtx{Context: context.Background(), cfg: cfg}
+}
+
+// verifRunJSON: schema inference over content, then execution over the same content.
+func verifRunJSON(content string, tail bool) (physical.Schema, [][]octosql.Value, error, error) {
+	files.VerifResetStdin()
+	zzverif.SetStdin([]byte(content))
+	ctx := verifCtx()
+	opts := map[string]string{}
+	if tail {
+		opts["tail"] = "true"
+	}
+	im, schema, err := Creator(ctx, "stdin", opts)
+	if err != nil {
+		return schema, nil, err, nil
+	}
+	node, err := im.Materialize(ctx, physical.Environment{}, schema, nil)
+	zzverif.Assert(err == nil, "materialize-ok")
+	sink := &verifSink{}
+	runErr := node.Run(execution.ExecutionContext{Context: ctx}, sink.produce, verifMeta)
+	return schema, sink.rows, nil, runErr
+}
+
+// verifLine: {"k":1,"v":<y>} or, for a missing y, {"k":1}.
+func verifLine(y verifJ) string {
+	if y.kind == -1 {
+		return "{\"k\":1}\n"
+	}
+	return "{\"k\":1,\"v\":" + y.text() + "}\n"
+}
+
+// VerifC24JSONFile: a JSON-lines file with PRE distinct lines inside the preview (POST=0), or with
+// the first line repeated so that the preview is exactly full (100 lines) and one more line beyond
+// it (POST=1). Each line is {"k":1,"v":X} with X of depth <= D, or {"k":1} (key missing, MISS=1).
+// If Run succeeds every produced value matches the reported column type, and Run must fail when a
+// line cannot be represented in the reported schema.
+func VerifC24JSONFile() { verifJSONFile(false) }
+
+// VerifC23JSONValues (C23): the same run; additionally one record per line, in file order, and
+// every record CARRIES the line's value: numbers as the Float that strconv.ParseFloat reads from
+// the lexeme, strings byte for byte, booleans, null / missing key as NULL, the time string as that
+// instant, arrays as lists element by element, objects as structs field by field (in the order
+// of the reported struct type; keys the type does not know are dropped).
+func VerifC23JSONValues() { verifJSONFile(true) }
+
+// verifCarries: octosql value v is JSON value y read at type t.
+func verifCarries(t octosql.Type, y verifJ, v octosql.Value) bool {
+	switch {
+	case y.nullish():
+		return v.TypeID == octosql.TypeIDNull
+	case y.kind == vjTrue || y.kind == vjFalse:
+		return v.TypeID == octosql.TypeIDBoolean && v.Boolean == (y.kind == vjTrue)
+	case y.kind == vjNumber:
+		f, err := strconv.ParseFloat(y.s, 64)
+		return err == nil && v.TypeID == octosql.TypeIDFloat && math.Float64bits(v.Float) == math.Float64bits(f)
+	case y.kind == vjString:
+		return v.TypeID == octosql.TypeIDString && zzverif.StrEq(v.Str, y.s)
+	case y.kind == vjTime:
+		// String | Time columns keep the text (String comes first in the union), Time columns parse it
+		if v.TypeID == octosql.TypeIDString {
+			return v.Str == y.s
+		}
+		want, err := time.Parse(time.RFC3339Nano, y.s)
+		return err == nil && v.TypeID == octosql.TypeIDTime && v.Time.Equal(want)
+	case y.kind == vjArray:
+		lt := verifAlt(t, octosql.TypeIDList)
+		if v.TypeID != octosql.TypeIDList || len(v.List) != len(y.elems) || lt.List.Element == nil && len(y.elems) > 0 {
+			return false
+		}
+		for i := range y.elems {
+			if !verifCarries(*lt.List.Element, y.elems[i], v.List[i]) {
+				return false
+			}
+		}
+		return true
+	case y.kind == vjObject:
+		st := verifAlt(t, octosql.TypeIDStruct)
+		if v.TypeID != octosql.TypeIDStruct || len(v.Struct) != len(st.Struct.Fields) {
+			return false
+		}
+		for i, f := range st.Struct.Fields {
+			if !verifCarries(f.Type, y.get(f.Name), v.Struct[i]) {
+				return false
+			}
+		}
+		return true
+	}
+	return false
+}
+
+func verifAlt(t octosql.Type, id octosql.TypeID) octosql.Type {
+	if t.TypeID == octosql.TypeIDUnion {
+		for _, a := range t.Union.Alternatives {
+			if a.TypeID == id {
+				return a
+			}
+		}
+	}
+	return t
+}
+
+func verifJSONFile(checkValues bool) {
+	zzverif.FixedSchedule(true) // C24 does not quantify over schedules (C23 does)
+	pre, post, miss := zzverif.Param("PRE"), zzverif.Param("POST"), zzverif.Param("MISS")
+	d, e, sl := zzverif.Param("D"), zzverif.Param("E"), zzverif.Param("S")
+	vals := make([]verifJ, pre+post)
+	anyPresent, anyMissingInPreview := false, false
+	for i := range vals {
+		if miss == 1 && zzverif.Choice(fmt.Sprintf("x%d.missing", i), 2) == 1 {
+			vals[i] = verifMissing
+			anyMissingInPreview = anyMissingInPreview || i < pre
+		} else {
+			vals[i] = verifGenJ(fmt.Sprintf("x%d", i), d, e, sl)
+			anyPresent = anyPresent || i < pre
+		}
+	}
+	zzverif.Assume(anyPresent) // otherwise the file has no column v at all
+	content := ""
+	var lines []verifJ
+	add := func(y verifJ) {
+		content += verifLine(y)
+		lines = append(lines, y)
+	}
+	if post == 1 {
+		for i := 0; i < 100-pre; i++ {
+			add(vals[0])
+		}
+	}
+	for i := range vals {
+		add(vals[i])
+	}
+	schema, got, cerr, rerr := verifRunJSON(content, false)
+	zzverif.Assert(cerr == nil, "creator-no-error")
+	zzverif.Assert(len(schema.Fields) == 2 && schema.Fields[0].Name == "k" && schema.Fields[1].Name == "v", "schema-has-k-v")
+	zzverif.Reach("inferred")
+	t := schema.Fields[1].Type
+
+	// regions of the known findings
+	nullable := verifRepr(t, verifMissing)
+	zzverif.Known("C24-json-missing-key-not-nullable", anyMissingInPreview && !nullable)
+	nilElem, nullInUnion, unrepr := false, false, false
+	for i, y := range lines {
+		nilElem = nilElem || verifNilElem(t, y)
+		nullInUnion = nullInUnion || verifNullInUnionContainer(t, y)
+		unrepr = unrepr || !verifRepr(t, y)
+		if (post == 0 || i < len(lines)-1) && y.kind != -1 {
+			// reference sanity: the type inferred from the preview represents every previewed value
+			zzverif.Assert(verifRepr(t, y), "previewed-value-is-representable")
+		}
+	}
+	zzverif.Known("C24-json-empty-list-type-panic", nilElem)
+	zzverif.Known("C24-json-null-not-ok", nullInUnion)
+	zzverif.Known("C24-json-beyond-preview-silent", post == 1 && !verifRepr(t, vals[pre]))
+
+	zzverif.Assert(!unrepr || rerr != nil, "unrepresentable-line-is-an-error")
+	if rerr != nil {
+		zzverif.Reach("run-error")
+		return
+	}
+	zzverif.Assert(len(got) == len(lines), "one-record-per-line")
+	for i := range got {
+		zzverif.Assert(len(got[i]) == 2, "two-values")
+		zzverif.Assert(octosql.VerifMatches(got[i][0], schema.Fields[0].Type), "k-matches-type")
+		zzverif.Assert(octosql.VerifMatches(got[i][1], t), "v-matches-reported-type")
+		if checkValues {
+			zzverif.Assert(got[i][0].TypeID == octosql.TypeIDFloat && got[i][0].Float == 1, "k-is-1")
+			zzverif.Assert(verifCarries(t, lines[i], got[i][1]), "record-carries-the-line-value")
+		}
+	}
+	zzverif.Reach("checked")
 }
